@@ -210,9 +210,10 @@ def sentences(a: S.AbsConn, ev, eff, post_tokens, reached=False):
             yield (f"C11-prelogon-send:{a.state}:{mt}", "send before Logon not refused cleanly (effects / state / counters / journal)")
     if ev[0] != "recv" or not (reached or reachable(a)) or a.state <= 3:
         return
-    if post.state == 8 and consistent(a):
-        yield ("C11-half-logged-on", "connection left in LOGON_INITIAL_RECV: Logon received but never answered, "
-               "yet messages are delivered / sent from there")
+    if post.state == 8 and a.state != 8:
+        cause = ",".join(e for e in eff if e.startswith("C=")) or "-"
+        yield (f"C11-half-logged-on:{cause}", "acceptor left in LOGON_INITIAL_RECV: the peer's Logon was received but "
+               "never answered, yet messages are delivered and sends accepted from that state")
     m = ev[2]
     mt = m[0]
     d = defect_class(a, m)
